@@ -61,6 +61,7 @@ type Scenario struct {
 	PCancel  float64         `json:"pcancel"`  // random mode: probability of a cancellation move
 	CancelOK []string        `json:"cancelok"` // which cancellations random mode may use: ctx, rep, cli
 	Oracle   bool            `json:"oracle"`   // compute the fresh-Config oracle at every idle monitor
+	Starve   []string        `json:"starve"`   // random mode: goroutines that are only moved when nothing else can move
 	PtrY     bool            `json:"ptry"`     // leaf y lives behind a user pointer (HCfg.L.Z) and sources hand it over as *HLim
 }
 
@@ -821,6 +822,23 @@ func (k *kernel) drive() error {
 			}
 			if len(cm) > 0 {
 				ms = cm
+			}
+			if len(k.sc.Starve) > 0 {
+				var fed []move
+				for _, m := range ms {
+					starved := false
+					for _, g := range k.sc.Starve {
+						if m.g == g {
+							starved = true
+						}
+					}
+					if !starved {
+						fed = append(fed, m)
+					}
+				}
+				if len(fed) > 0 {
+					ms = fed
+				}
 			}
 			if len(ms) == 0 {
 				break
